@@ -76,6 +76,8 @@ pub trait Coll {
     /// arena-backed trees only
     fn abs(&self) -> Option<Result<Abs, String>> { None }
     fn structure(&self) -> Option<Result<(usize, usize), String>> { None }
+    /// expiring tree only: what `height()` reserves for the export's traversal stack
+    fn stack_capacity(&self) -> Option<usize> { None }
 }
 
 // ---------------------------------------------------------------------------------------------
@@ -168,6 +170,7 @@ impl Coll for KeyC {
         }
     }
     fn state(&self) -> Result<String, String> { self.abs().unwrap().map(|a| a.state) }
+    fn stack_capacity(&self) -> Option<usize> { Some(self.0.verif_stack_capacity()) }
     fn abs_note(&self) -> Option<String> { self.abs().unwrap().ok().and_then(|a| a.links_err.or(a.slots_err)) }
     fn abs(&self) -> Option<Result<Abs, String>> {
         Some(abs(&self.0.verif_snapshot(), &|e: &(IK, i64)| (e.0.k as i64, e.0.exp as i64, e.1)))
